@@ -29,16 +29,35 @@ func (e *Exec) chanRecv(c *ChanObj) (Value, bool) {
 	return zero(c.Elem), false
 }
 
+// envStep gives the scripted environment of RunWithEnv a turn when the goroutine body under
+// execution is about to block; it reports whether the environment did something.
+func (e *Exec) envStep() bool {
+	if len(e.envStack) == 0 || e.envRunning {
+		return false
+	}
+	env := e.envStack[len(e.envStack)-1]
+	e.envRunning = true
+	r := e.callClosure(env, nil)
+	e.envRunning = false
+	return e.decide(r.(VBool).T)
+}
+
 func (e *Exec) doSelect(fr *frame, in *ssa.Select) Value {
 	var ready []int
-	for i, st := range in.States {
-		ch, _ := e.val(fr, st.Chan).(VChan)
-		if st.Dir == types.RecvOnly {
-			if e.chanRecvReady(ch.C) {
+	for {
+		ready = ready[:0]
+		for i, st := range in.States {
+			ch, _ := e.val(fr, st.Chan).(VChan)
+			if st.Dir == types.RecvOnly {
+				if e.chanRecvReady(ch.C) {
+					ready = append(ready, i)
+				}
+			} else if e.chanSendReady(ch.C) {
 				ready = append(ready, i)
 			}
-		} else if e.chanSendReady(ch.C) {
-			ready = append(ready, i)
+		}
+		if len(ready) > 0 || !in.Blocking || !e.envStep() {
+			break
 		}
 	}
 	idx := -1
@@ -155,6 +174,31 @@ func init() {
 		v := fieldV(a[0]).V.(VInt).T
 		return VBool{Not(Eq(v, idxC(v, 0)))}
 	}
+	// timers: a timer's channel holds one tick that may be taken at any time until Stop()
+	// disarms it (no model of time: "may fire at any moment")
+	newTick := func(e *Exec) *ChanObj {
+		return &ChanObj{Cap: 1, Elem: timeType, Q: []Value{zero(timeType)}}
+	}
+	intrinsics["time.NewTimer"] = func(e *Exec, a []Value) Value {
+		var tt types.Type
+		for _, p := range e.prog.AllPackages() {
+			if p.Pkg.Path() == "time" {
+				tt = p.Pkg.Scope().Lookup("Timer").Type()
+			}
+		}
+		c := newCell(tt)
+		c.Fields[0].V = VChan{newTick(e)}
+		e.events = append(e.events, "timer")
+		return VPtr{c}
+	}
+	intrinsics["(*time.Timer).Stop"] = func(e *Exec, a []Value) Value {
+		c := a[0].(VPtr).C
+		ch := c.Fields[0].V.(VChan).C
+		active := len(ch.Q) > 0
+		ch.Q = nil
+		return VBool{BoolC(active)}
+	}
+	intrinsics["time.After"] = func(e *Exec, a []Value) Value { return VChan{newTick(e)} }
 	intrinsics["time.Now"] = func(e *Exec, a []Value) Value { return zero(timeType) }
 	clock := func(e *Exec, a []Value) Value {
 		e.nondet++
